@@ -1,10 +1,17 @@
 #include <unicode/ustring.h>
 #include <unicode/unorm.h>
-/* identity normalization / ASCII lower-case fold with ICU buffer protocol */
+/* identity normalization / ASCII lower-case fold with ICU buffer protocol.
+ * With -DNORM_SINGLETONS the two length-preserving singleton mappings every Unicode normalisation form applies,
+ * U+212B ANGSTROM SIGN -> U+00C5 and U+2126 OHM SIGN -> U+03A9, are modelled as well (true of the real ICU), so that a
+ * harness can use a key whose normalised form differs from the spelling entered. */
 int32_t unorm_normalize(const UChar *src,int32_t len,UNormalizationMode mode,int32_t opt,UChar *dst,int32_t cap,UErrorCode *st){
   int32_t i; if(len<0){ len=0; while(src[len]) len++; }
   if(len>cap){ *st=U_BUFFER_OVERFLOW_ERROR; return len; }
+#ifdef NORM_SINGLETONS
+  for(i=0;i<len;i++) dst[i]=(src[i]==0x212B)? 0x00C5 : ((src[i]==0x2126)? 0x03A9 : src[i]);
+#else
   for(i=0;i<len;i++) dst[i]=src[i];
+#endif
   if(len<cap) dst[len]=0; else *st=U_STRING_NOT_TERMINATED_WARNING;
   return len; }
 int32_t u_strFoldCase(UChar *dst,int32_t cap,const UChar *src,int32_t len,uint32_t opt,UErrorCode *st){
